@@ -28,7 +28,7 @@ import (
 
 func c19Gen(r *sim.Rand, tier string) *sim.Case {
 	cs := &sim.Case{Knobs: map[string]int64{}}
-	cs.Variant = sim.Pick(r, "random", "random", "random", "backlogged", "backlogged", "backlogged", "unlimited", "ctl")
+	cs.Variant = sim.Pick(r, "random", "random", "random", "backlogged", "backlogged", "backlogged", "unlimited", "ctl", "dhcp")
 	if cs.Variant == "ctl" {
 		// control plane only: an operator replaces a named policy while sessions are being put on it
 		cs.Knobs["nver"] = int64(r.Range(2, 5))
@@ -67,6 +67,18 @@ func c19Gen(r *sim.Rand, tier string) *sim.Case {
 	}
 	cs.Knobs["burst"] = burst
 	cs.Knobs["ingress"] = int64(r.N(2))
+	if cs.Variant == "dhcp" {
+		// the policy reaches the kernel through the DHCP server (session set-up installs it);
+		// a moderate contract, so that the generated traffic keeps the bucket drained
+		rate = int64(sim.Pick(r, 1_000_000, 8_000_000, 100_000_000))
+		burst = int64(sim.Pick(r, 3000, 65536, 1<<20))
+		cs.Knobs["rate"], cs.Knobs["burst"], cs.Knobs["ingress"] = rate, burst, 0
+		cs.Knobs["smallpool"] = int64(r.N(2))
+		cs.Knobs["skipmax"] = int64(sim.Pick(r, 1, 2, 4))
+		// a task may be descheduled for a while at any scheduling point (what the server leaves
+		// to background goroutines then lands late)
+		cs.Knobs["stall_pm"] = int64(sim.Pick(r, 0, 50, 150))
+	}
 	if cs.Variant == "backlogged" && r.P(35) {
 		cs.Knobs["subtoken"] = 1
 	}
@@ -89,6 +101,10 @@ func c19Gen(r *sim.Rand, tier string) *sim.Case {
 		// at this packet index while the kernel refuses the write to the other direction's map
 		cs.Knobs["refail_at"] = int64(r.Range(1, n/2))
 		cs.Knobs["refail_change"] = int64(r.N(2)) // 1: a half-failed change to a faster policy precedes the re-apply
+	}
+	if cs.Variant == "dhcp" {
+		// the client renews (or retransmits its REQUEST) at these packet indexes
+		cs.Knobs["renew_a"], cs.Knobs["renew_b"] = int64(r.Range(1, n-1)), int64(r.Range(1, n-1))
 	}
 	for i := 0; i < n; i++ {
 		size := int64(1 + r.N(int(maxpkt)))
@@ -116,7 +132,11 @@ func c19Gen(r *sim.Rand, tier string) *sim.Case {
 				gap = int64(r.N(int(minI64(bt, 1<<40))))
 			}
 		} else {
-			switch r.N(8) {
+			gk := r.N(8)
+			if cs.Variant == "dhcp" && (gk == 5 || gk == 6) {
+				gk = 7 // no idle hours: the subscriber keeps sending at about its rate
+			}
+			switch gk {
 			case 0:
 				gap = 0
 			case 1:
@@ -187,7 +207,13 @@ func c19Run(c *sim.Ctx) {
 		return
 	}
 	sub := net.IPv4(10, 7, 0, 42).To4()
-	if err := mgr.SetSubscriberQoS(&qos.SubscriberQoS{IP: sub, DownloadBPS: rate, UploadBPS: rate, BurstBytes: burst, Priority: 3, PolicyName: "p"}); err != nil {
+	var dh *c19dhcp
+	if cs.Variant == "dhcp" {
+		dh = newC19dhcp(c, pm, mgr, egress, rate, burst)
+		if sub = dh.acquire(0); sub == nil {
+			return
+		}
+	} else if err := mgr.SetSubscriberQoS(&qos.SubscriberQoS{IP: sub, DownloadBPS: rate, UploadBPS: rate, BurstBytes: burst, Priority: 3, PolicyName: "p"}); err != nil {
 		c.Fail("policy", "policy/set-failed", "SetSubscriberQoS failed: %v", err)
 		return
 	}
@@ -254,6 +280,10 @@ func c19Run(c *sim.Ctx) {
 			// the re-applied bucket may start full again: the reference window restarts here
 			admitted, elapsed, minG, winStartAdm, winStartEl = new(big.Int), new(big.Int), nil, nil, nil
 			hits, misses = 0, 0
+		}
+		if dh != nil && (int64(i) == cs.Knob("renew_a", -1) || int64(i) == cs.Knob("renew_b", -1)) {
+			// the session is established and unchanged: its contract goes on, no new burst is due
+			dh.renew(0)
 		}
 		gap, size := uint64(op.Arg(0)), op.Arg(1)
 		if size < 1 {
@@ -339,6 +369,9 @@ func c19Run(c *sim.Ctx) {
 					i, short.String(), rate, effBurst, hits, hits+misses)
 			}
 		}
+	}
+	if dh != nil && !c.Failed() {
+		dh.handover()
 	}
 	c.State(uint64(hits)<<16 | uint64(misses))
 	c.NonTrivial = hits > 0 && misses > 0 || rate == 0
@@ -477,9 +510,10 @@ func init() {
 		Run: c19Run,
 		Real: []string{"bpf/qos_ratelimit.c (qos_egress_prog, qos_ingress_prog, token_bucket_check) compiled natively with clang against shim helper headers",
 			"qos.Manager.SetSubscriberQoS writing the token bucket into a real kernel hash map (cilium/ebpf marshalling)", "the kernel's map implementation (bpf(2) lookup/update)",
-			"variant ctl: radius.PolicyManager.AddPolicy and qos.Manager.SetSubscriberPolicy as concurrent tasks under the cooperative scheduler, with the field reads that fill a composite literal split by yields (instrumentation level 3)"},
+			"variant ctl: radius.PolicyManager.AddPolicy and qos.Manager.SetSubscriberPolicy as concurrent tasks under the cooperative scheduler, with the field reads that fill a composite literal split by yields (instrumentation level 3)",
+			"variant dhcp: dhcp.Server (DISCOVER/REQUEST/renewal/RELEASE handlers, a /29 or /30 pool) installing and removing the policy through qos.Manager into the same kernel maps"},
 		Stub:         []string{"TC attach and __sk_buff (a 64-byte linear header below 4 GiB, skb->len set by the harness)", "bpf_ktime_get_ns (simulated kernel clock)", "in-place map value mutation (emulated by lookup + write-back after the program returns)"},
-		Rule:         "cases: one subscriber, rate 1 kbit/s-100 Gbit/s, burst 1-2^32-1, 50-2000 arrivals (sizes 1-65535, gaps 0 ns-days, kernel clock anywhere in 64 bits); variants random / always-backlogged / unlimited; in a quarter of the random egress runs the same policy is re-applied mid-run while the other direction's map refuses the write (the reference window restarts there); one case in eight is control-plane only (variant ctl): a named policy is replaced 1-4 times while 1-3 sessions are put on it, and what the kernel maps hold for each must be one whole version, the one before or after the replacement; non-trivial = >=3 packets and both verdicts (admit and drop) occurred, or rate 0; distinct = distinct case hash",
+		Rule:         "cases: one subscriber, rate 1 kbit/s-100 Gbit/s, burst 1-2^32-1, 50-2000 arrivals (sizes 1-65535, gaps 0 ns-days, kernel clock anywhere in 64 bits); variants random / always-backlogged / unlimited; in a quarter of the random egress runs the same policy is re-applied mid-run while the other direction's map refuses the write (the reference window restarts there); one case in eight is control-plane only (variant ctl): a named policy is replaced 1-4 times while 1-3 sessions are put on it, and what the kernel maps hold for each must be one whole version, the one before or after the replacement; one case in nine goes through the DHCP server (variant dhcp): set-up installs the policy, the client renews twice during the traffic (no new burst is due), then releases and a second client is set up at once and must be found policed, with goroutine-start stalls injected; non-trivial = >=3 packets and both verdicts (admit and drop) occurred, or rate 0; distinct = distinct case hash",
 		QuickRuns:    5000,
 		ThoroughRuns: 400000,
 		Assumptions: []string{"one CPU runs the program on a bucket at a time (no concurrent in-kernel updates)", "native code generation instead of the BPF back end",
